@@ -580,6 +580,8 @@ func (r *Runner) exec(op *OpSpec, st *Step) (res *Rec) {
 		return r.execDecEnum(op, st)
 	case "decseq":
 		return r.execDecSeq(op, st)
+	case "reenc":
+		return r.execReenc(op, st)
 	case "legacy":
 		return r.execLegacy(op, st)
 	case "arg":
@@ -786,6 +788,74 @@ func (r *Runner) execDec(op *OpSpec, st *Step) *Rec {
 	return res
 }
 
+// execReenc decodes a message written by a foreign writer and then sizes and encodes the decoded object, by pointer
+// and by value, with snapshots of the object (raw bool bytes, unknown-field holder and spare capacities included) around
+// every call.
+func (r *Runner) execReenc(op *OpSpec, st *Step) *Rec {
+	sd := r.C.Get(op.Type)
+	rt := corpus.Types[op.Type]
+	res := &Rec{Cls: "ok", Tag: "reenc/" + sd.Shape()}
+	w := model.GenValue(r.C, sd, op.VSeed, model.VOpt{Budget: op.Budget, Foreign: true, OddBools: true})
+	msg := w.Bytes()
+	in := make([]byte, len(msg))
+	copy(in, msg)
+	dst := reflect.New(rt)
+	if _, err, pc, _ := callDec(in, dst.Interface()); err != nil || pc != "" {
+		res.Cls = "err"
+		res.D = "reenc-undecodable"
+		return res
+	}
+	snap := func() string { return model.Digest(model.CanonValue(dst.Elem())) }
+	inSnap := model.Digest(in)
+	before := snap()
+	check := func(fn string) {
+		r.st(st).evals++
+		res.Evals++
+		if after := snap(); after != before {
+			r.violation("C16", "C16/argument-modified/"+fn+"/decoded-object", fmt.Sprintf("%s modified the %s object it was given (an object decoded from a foreign writer's message); value=%s", fn, op.Type, w.String()), st)
+			before = after
+		}
+		if model.Digest(in) != inSnap {
+			r.violation("C16", "C16/encode-modified-nocopy-source", fmt.Sprintf("%s on a decoded %s object wrote into the message buffer its nocopy fields view", fn, op.Type), st)
+			inSnap = model.Digest(in)
+		}
+	}
+	s, pc, _ := callSize(dst.Interface())
+	check("EncodedSize")
+	if pc != "" {
+		res.Cls = "panic"
+		res.D = "reenc-size-panic"
+		return res
+	}
+	var first string
+	for k := 0; k < 3; k++ {
+		a := newArena(s+8, s+24)
+		var arg interface{} = dst.Interface()
+		if k == 2 {
+			arg = dst.Elem().Interface()
+		}
+		n, err, pc, _ := callEnc(a.buf(), arg)
+		check("EncodeObject")
+		if err != nil || pc != "" {
+			continue
+		}
+		if cb, _, ok := model.CanonBytes(a.buf()[:n]); ok {
+			d := model.Digest(cb)
+			if first == "" {
+				first = d
+			} else if d != first {
+				r.violation("C16", "C16/not-repeatable/decoded-object", fmt.Sprintf("encoding the same decoded %s object again gave a different message", op.Type), st)
+			}
+		}
+		if msg := a.intact(n); msg != "" {
+			r.violation("C16", "C16/encode-wrote-outside/"+where(msg), "EncodeObject on a decoded "+op.Type+" object: "+msg, st)
+		}
+		res.N = n
+	}
+	res.D = model.Digest([]byte("reenc " + strconv.Itoa(res.N) + " " + first))
+	return res
+}
+
 // execDecSeq decodes several messages - the first one possibly damaged - one after the other into the same
 // destination: the destination's prior contents are then what an earlier, possibly failed, decode left behind.
 func (r *Runner) execDecSeq(op *OpSpec, st *Step) *Rec {
@@ -912,6 +982,20 @@ func (r *Runner) execLegacy(op *OpSpec, st *Step) *Rec {
 			if err := frugal.Pretouch(rt, frugal.WithMaxInlineDepth(int(op.VSeed%7)), frugal.WithMaxInlineILSize(int(op.VSeed%100000)),
 				frugal.WithMaxPretouchDepth(int(op.VSeed%5))); err != nil {
 				fail("Pretouch returned " + err.Error())
+			}
+		case "pretouch-ptrptr":
+			pp := reflect.PtrTo(reflect.PtrTo(rt))
+			if err := frugal.Pretouch(pp); err != nil {
+				fail("Pretouch(**T type) returned " + err.Error())
+			}
+			if err := frugal.Pretouch(reflect.New(pp).Elem().Interface()); err != nil {
+				fail("Pretouch(**T value) returned " + err.Error())
+			}
+			p := reflect.New(rt)
+			ppv := reflect.New(p.Type())
+			ppv.Elem().Set(p)
+			if err := frugal.Pretouch(ppv.Interface()); err != nil {
+				fail("Pretouch(**T value) returned " + err.Error())
 			}
 		case "pretouch-nil":
 			if err := frugal.Pretouch(nil); err != nil {
